@@ -3,7 +3,7 @@ package main
 // C19 — a perceptual hash is its defined function of the pixels; wrong sizes
 // and nil are rejected; distances are Hamming distances.
 //
-// Enumerated: a finite image family (5 pixel formats (RGBA, NRGBA at alpha 200, Gray, YCbCr 4:4:4, NRGBA with fully transparent pixels) x 4 rectangle placements
+// Enumerated: a finite image family (6 pixel formats (RGBA, NRGBA at alpha 200, Gray, YCbCr 4:4:4, NRGBA and RGBA with fully transparent pixels) x 4 rectangle placements
 // x ~470 contents per hash size), every size in a window around the required
 // one (each followed by a valid call: history), and all triples of a hash set.
 // Reference: independent float64 separable DCT-II of the documented luminance.
@@ -21,6 +21,7 @@ import (
 	"verif/mc"
 
 	"github.com/evanoberholster/imagemeta/imagehash"
+	"github.com/evanoberholster/imagemeta/imagehash/transforms"
 	"github.com/evanoberholster/imagemeta/imagehash/transforms32"
 	"github.com/evanoberholster/imagemeta/verifshim/vsync"
 )
@@ -33,10 +34,11 @@ const (
 	kGray
 	kYCbCr
 	kNRGBAHoles
+	kRGBAHoles
 	nKinds
 )
 
-var kindName = []string{"RGBA", "NRGBA", "Gray", "YCbCr444", "NRGBA with fully transparent pixels"}
+var kindName = []string{"RGBA", "NRGBA", "Gray", "YCbCr444", "NRGBA with fully transparent pixels", "RGBA with fully transparent pixels"}
 
 const nOrigins = 4
 
@@ -163,12 +165,23 @@ func buildImage(kind, origin, n int, c content) image.Image {
 		return c.f(X-r.Min.X, Y-r.Min.Y), true
 	}
 	switch kind {
-	case kRGBA:
+	case kRGBA, kRGBAHoles:
 		m := image.NewRGBA(r)
 		for Y := r.Min.Y; Y < r.Max.Y; Y++ {
 			for X := r.Min.X; X < r.Max.X; X++ {
-				v, _ := val(X, Y)
-				m.SetRGBA(X, Y, color.RGBA{v, v, v, 255})
+				v, in := val(X, Y)
+				c := color.RGBA{v, v, v, 255}
+				if kind == kRGBAHoles {
+					rx, ry := X-r.Min.X, Y-r.Min.Y
+					if origin == 3 {
+						rx, ry = X-8, Y-8
+					}
+					c = color.RGBA{v, 255 - v, v / 3, 255}
+					if in && ((rx*5+ry*3)%11 == 0 || v == 0) {
+						c = color.RGBA{} // fully transparent, premultiplied black
+					}
+				}
+				m.SetRGBA(X, Y, c)
 			}
 		}
 		if origin == 3 {
@@ -565,14 +578,36 @@ func c19Family(hi int, kinds, origins []int) mc.Harness {
 		px := make([]float32, hf.n*hf.n)
 		var dist float64
 		if pi := mc.Guard(func() { transforms32.ImageToGray(img, &px) }); pi == nil {
+			// the conversion itself must give the documented luminance of the pixels: exactly (up to
+			// float32 rounding) for every format but YCbCr, within 2.0 per pixel for YCbCr (C20)
+			tol := 1e-3
+			if kind == kYCbCr {
+				tol = 2.0
+			}
 			for i := range px {
-				dist += math.Abs(float64(px[i]) - lum[i])
+				d := math.Abs(float64(px[i]) - lum[i])
+				if d > tol+1.2e-7*math.Abs(lum[i]) || d != d {
+					fail("alternative: gray conversion differs from the documented luminance of the pixel", fmt.Sprintf("pixel (%d,%d): converted %g, documented luminance %g", i%hf.n, i/hf.n, px[i], lum[i]))
+					return
+				}
+				dist += d
 			}
 		} else {
 			fail("panic in gray conversion|"+pi.Func+"|"+pi.Class, pi.Value)
 			return
 		}
 		tauA += dist
+		px64 := make([]float64, hf.n*hf.n)
+		if pi := mc.Guard(func() { transforms.Rgb2GrayFast(img, &px64) }); pi != nil {
+			fail("panic in gray conversion|"+pi.Func+"|"+pi.Class, pi.Value)
+			return
+		}
+		for i := range px64 {
+			if d := math.Abs(px64[i] - lum[i]); d > 1e-9+1e-15*math.Abs(lum[i]) || d != d {
+				fail("primary: gray conversion differs from the documented luminance of the pixel", fmt.Sprintf("pixel (%d,%d): converted %g, documented luminance %g", i%hf.n, i/hf.n, px64[i], lum[i]))
+				return
+			}
+		}
 		decided := 0
 		if k, d, n := judgeHash(hp, ref, tauP); k != "" {
 			fail("primary: "+k, d+" hash="+bitsHex(hp))
@@ -824,11 +859,11 @@ func init() {
 	register(&mc.Check{
 		Property: "C19",
 		Spaces: func(tier string) []mc.Space {
-			allK := []int{kRGBA, kNRGBA, kGray, kYCbCr, kNRGBAHoles}
+			allK := []int{kRGBA, kNRGBA, kGray, kYCbCr, kNRGBAHoles, kRGBAHoles}
 			allO := []int{0, 1, 2, 3}
 			sp := []mc.Space{
 				{Name: "family-64", H: c19Family(0, allK, allO), NoLevels: true, Isolate: true, SplitDepth: 1,
-					Rule: "64x64 images: 5 pixel formats (RGBA, NRGBA at alpha 200, Gray, YCbCr 4:4:4, NRGBA with fully transparent pixels) x 4 rectangle placements x the content family (constants, every low-frequency cosine basis image at two amplitudes and rectified on black, two-basis sums, ramps, checkerboards, single bright/dark pixels on a grid, fixed noise); both implementations vs an independent float64 DCT-II of the documented luminance, margins 1e-11*L1 / 4e-5*L1 (+ measured conversion distance); repeated and pool-poisoned calls; placement invariance"},
+					Rule: "64x64 images: 6 pixel formats (RGBA, NRGBA at alpha 200, Gray, YCbCr 4:4:4, NRGBA and RGBA with fully transparent pixels) x 4 rectangle placements x the content family (constants, every low-frequency cosine basis image at two amplitudes and rectified on black, two-basis sums, ramps, checkerboards, single bright/dark pixels on a grid, fixed noise); both gray conversions vs the documented luminance of the pixels (exact; 2.0 per pixel for YCbCr), both implementations vs an independent float64 DCT-II of the documented luminance, margins 1e-11*L1 / 4e-5*L1 (+ measured conversion distance); repeated and pool-poisoned calls; placement invariance"},
 				{Name: "sizes-64", H: c19Sizes(0, 56, 72, 300), NoLevels: true, Isolate: true, SplitDepth: 1,
 					Rule: "every (w,h) in [56,72]^2, 64x[0,300], [0,300]x64 x {Gray, RGBA, YCbCr 4:2:0} x history {pristine, after a valid hash, poisoned pools}: error and zero hash unless exactly 64x64; following valid call unchanged"},
 				{Name: "nil-image", H: c19Nil, NoLevels: true, Isolate: true},
@@ -845,7 +880,7 @@ func init() {
 						Rule: "every (w,h) in [248,264]^2, 256x[0,300], [0,300]x256"})
 			} else {
 				sp = append(sp,
-					mc.Space{Name: "family-256", H: c19Family(1, []int{kGray, kYCbCr, kNRGBAHoles}, []int{0, 3}), NoLevels: true, Isolate: true, SplitDepth: 1,
+					mc.Space{Name: "family-256", H: c19Family(1, []int{kGray, kYCbCr, kNRGBAHoles, kRGBAHoles}, []int{0, 3}), NoLevels: true, Isolate: true, SplitDepth: 1,
 						Rule: "256x256 images: Gray, YCbCr and NRGBA with transparent pixels, at the origin and as a sub-image, whole content family"},
 					mc.Space{Name: "sizes-256", H: c19Sizes(1, 254, 258, 64), NoLevels: true, Isolate: true, SplitDepth: 1,
 						Rule: "every (w,h) in [254,258]^2, 256x[0,64], [0,64]x256"})
